@@ -426,6 +426,36 @@ def _run_wiring(ctx, modname: str, core: str, P: str):
                 f"run(): time crop wiring: "
                 f"{ {k: fmt(v) for k, v in b.items()} }"),
                key=f"{_R(P, 5)}:run:crop")
+    # the crop runs whenever either bound is given (each alone suffices)
+    for opt in ("t_start", "t_end"):
+        other = "t_end" if opt == "t_start" else "t_start"
+
+        def only(t, opt=opt, other=other):
+            if t is A(opt):
+                return True
+            if t is A(other):
+                return False
+            if is_call_to(t, "builtins.isinstance"):
+                return True
+            return None
+        on = [tm.fold(ce.live, only) for ce in crop]
+        ok = any(v is not False for v in on)
+        ctx.ob(_R(P, 5), crop[0], ok,
+               f"run(): --{opt} alone enables the time crop" if ok else
+               f"run(): with only --{opt} given the time range is ignored "
+               f"({fmt(crop[0].live)[:100]}): the stored values are not "
+               f"restricted to the requested range",
+               key=f"{_R(P, 5)}:run:crop-enabled:{opt}")
+
+    def none_given(t):
+        if t is A("t_start") or t is A("t_end"):
+            return False
+        return None
+    ok = all(tm.fold(ce.live, none_given) is False for ce in crop)
+    ctx.ob(_R(P, 5), crop[0], ok,
+           "run(): without --t_start / --t_end nothing is cropped" if ok else
+           "run(): the time crop runs although no range was requested",
+           key=f"{_R(P, 5)}:run:crop-off")
     b = assoc[0].data["bound"] or {}
     want = {"traj_1": ref0, "traj_2": est0, "max_diff": A("t_max_diff"),
             "offset_2": A("t_offset")}
